@@ -404,8 +404,12 @@ func (r *runner) runBlock(steps []Step) {
 		d := fmt.Sprintf("concurrent block %v: under no order of the requests are the answers admissible; e.g. %s", kinds, firstAnswerProblem)
 		r.v("C09", "block-not-serializable", "%s", d)
 		r.v("C04", "answer-wrong-outcome", "%s", d)
+		if strings.Contains(strings.Join(kinds, "+"), "type_add") {
+			r.v("C10", "type-not-bijective", "%s", d)
+			r.v("C12", "type-registry", "%s", d)
+		}
 		for _, b := range best.bad {
-			if strings.HasPrefix(b, "C10/") || strings.HasPrefix(b, "C07/") || strings.HasPrefix(b, "C05/") {
+			if strings.HasPrefix(b, "C10/") || strings.HasPrefix(b, "C07/") || strings.HasPrefix(b, "C05/") || strings.HasPrefix(b, "C12/") {
 				parts := strings.SplitN(b, ": ", 2)
 				pr := strings.SplitN(parts[0], "/", 2)
 				r.v(pr[0], pr[1], "%s", d)
